@@ -877,7 +877,11 @@ func (in *c03Inst) checkRefusal(op c03Op, err error, pre *c03Obs, wantSentinel b
 	}
 	post := in.observe()
 	if where, ok := pre.equal(post); !ok {
-		return seqmc.Violation("refused-call-changed-state:"+op.kindName()+":"+c03Kind(strings.TrimPrefix(where, "limiter ")),
+		kind := c03Kind(where)
+		if strings.HasPrefix(where, "limiter ") {
+			kind = "subnet-limiter"
+		}
+		return seqmc.Violation("refused-call-changed-state:"+op.kindName()+":"+kind,
 			"%s was refused (%v) but changed %s: before %v/%v after %v/%v", op, err, where, pre.stats[where], pre.limiter, post.stats[where], post.limiter)
 	}
 	return nil
@@ -925,7 +929,7 @@ func (in *c03Inst) applyOp(op c03Op) error {
 		switch {
 		case capHit:
 			if err == nil {
-				return seqmc.Violation("subnet-cap-exceeded:OpenConnection", "%s admitted although %q already holds its cap of open connections (open per capped subnet: %v)", op, capKey, m.subnetCountsS())
+				return seqmc.Violation("subnet-cap-exceeded:OpenConnection:"+strings.SplitN(capKey, " ", 2)[0], "%s admitted although %q already holds its cap of open connections (open per capped subnet: %v)", op, capKey, m.subnetCountsS())
 			}
 			in.outcome("OpenConnection: refused by per-subnet cap")
 			return in.checkRefusal(op, err, pre, false)
@@ -1140,6 +1144,11 @@ func (in *c03Inst) applyOp(op c03Op) error {
 			in.outcome(fmt.Sprintf("ReserveMemory(%s prio %d): granted, chain of %d", c03TNames[op.T], op.Prio, len(chain)))
 			break
 		}
+		if err == nil && chain[ri].lim.Memory == math.MaxInt64 {
+			// the sum of what the holders hold is no longer representable: the scope wraps around
+			return seqmc.Violation("accepted-beyond-maxint64-at-unlimited-limit:ReserveMemory",
+				"%s granted although %s already holds %v and its limit is MaxInt64 (the reported usage wraps negative)", op, chain[ri].name, chain[ri].use)
+		}
 		if err == nil {
 			return seqmc.Violation("accepted-over-limit:ReserveMemory:"+c03Kind(chain[ri].name),
 				"%s granted although %s (usage %v, memory limit %d) may hold at most %v at priority %d", op, chain[ri].name, chain[ri].use, chain[ri].lim.Memory, c03MemBound(chain[ri].lim.Memory, op.Prio), op.Prio)
@@ -1306,7 +1315,7 @@ func (in *c03Inst) audit(op c03Op, reparentRefused bool) error {
 	// (4) open connections per subnet never exceed the configured cap
 	for k, n := range m.subnetCounts() {
 		if n > k.cap {
-			return seqmc.Violation("subnet-cap-exceeded:"+op.kindName(), "after %s there are %d open connections in %q, cap %d", op, n, k.key, k.cap)
+			return seqmc.Violation("subnet-cap-exceeded:"+op.kindName()+":"+strings.SplitN(k.key, " ", 2)[0], "after %s there are %d open connections in %q, cap %d", op, n, k.key, k.cap)
 		}
 	}
 	// (5) when the last holder is released every scope reads zero (part of (1)) and the subnet counters are empty
